@@ -2,7 +2,7 @@
    structurally (default pickling: no __reduce__ / __getstate__ on Graph, TreeNode or the edges - checked by the
    translator); a MemoryCache travels as MemoryCache.__reduce__ says (REGENERATED: [mc_reduce_keeps]); a DiskCache
    travels as its storage locations; a function travels by qualified name, so a library-owned lambda or closure cannot. *)
-From Connectome Require Import Values MemGen PickleGen Store.
+From Connectome Require Import Values MemGen MemPickleGen PickleGen Store.
 Local Open Scope list_scope.
 
 Definition pickle_cache (c : cache_state) : cache_state :=
